@@ -24,7 +24,7 @@ LEVEL_NOTE = ("partial: sqrt, scipy.stats norm/t cdf and ppf, numpy FFT and scip
 TECHNIQUE = "Coq proof over an exact rational model of the estimators + extracted-model correspondence with host evaluation of sqrt/cdf/fit"
 SITES = []
 RULE = ("1-4 series per call, each 2-10 valid values on the dyadic grid k/2 (|k|<=6) drawn as random / exactly-zero-mean / all-zero / constant / "
-        "two-valued (ties) / alternating, NaN cells inserted at random positions (series of different valid length in one call), the h "
+        "two-valued (ties) / alternating, integer-dtype series, the same series in several units (x1e-6..x1e6) in one call, NaN cells inserted at random positions (series of different valid length in one call), the h "
         "coordinate drawn from 1..len-1 (a sweep entry uses every h below the length), method in {HLN,HG}, distribution in {normal,t}, "
         "confidence level in {0.5,0.8,0.9,0.95,0.99}, ts_dim first or second; a case is distinct by (series, h, method, distribution, level) and "
         "non-trivial when at least one series has a finite statistic")
@@ -79,10 +79,12 @@ def pad_with_nan(rng, v, L):
     return out
 
 
-def build_da(rng, rows, hs, transpose=False, h_float=False):
+def build_da(rng, rows, hs, transpose=False, h_float=False, dtype=None):
     k = len(rows)
     labels = list(range(10, 10 + k))
     data = np.array(rows, dtype=float)
+    if dtype:
+        data = data.astype(dtype)          # integer-dtype time series (no NaN possible)
     hvals = [float(h) for h in hs] if h_float else list(hs)
     da = xr.DataArray(data, dims=["lead", "t"], coords={"lead": labels, "t": list(range(data.shape[1])), "h": ("lead", hvals)})
     return da.transpose("t", "lead") if transpose else da
@@ -144,12 +146,53 @@ def close_f(x, y, rel=1e-9, ab=1e-12):
     return abs(x - y) <= ab + rel * max(abs(x), abs(y))
 
 
+def exact_constant(vals):
+    """a constant series whose binary64 mean is exactly that constant: every deviation is exactly 0.0, so V_hat is exactly 0 in
+    binary64 too and the statistic must be NaN (for other V_hat == 0 series rounding decides)"""
+    return len(set(vals)) == 1 and float(np.mean(np.array(vals, dtype=float))) == vals[0]
+
+
 def dec_row(t):
     return {"mean": core.dec_num(t[0]), "stat_sq": core.dec_num(t[1]), "len": int(t[2]), "se_sq": core.dec_num(t[3]),
             "all_zero": t[4] == "true", "gammas": core.dec_nums(t[5]), "hg_sample": core.dec_nums(t[6])}
 
 
+def py_rows(rows, hs):
+    """exact-rational evaluation of the documented estimators in Python; used only when the extracted model cannot be built
+    (run_without_model) to keep searching for a failing input"""
+    out = []
+    for r, h in zip(rows, hs):
+        d = [Fraction(x) for x in r if not math.isnan(x)]
+        n, h = len(d), int(h)
+        m = sum(d) / n
+        g = [sum((d[t] - m) * (d[t - k] - m) for t in range(k, n)) for k in range(n)]
+        v = (g[0] + 2 * sum(g[1:h])) / n ** 2
+        fac = (n + 1 - 2 * h + Fraction(h * (h - 1), n)) / n
+        allz = all(x == 0 for x in d)
+        nan = float("nan")
+        ok = v > 0 and not allz
+        ml = min(max((n - 1) // 2, h), n)
+        out.append({"mean": m, "stat_sq": (m * abs(m) * fac / v) if ok else nan, "len": n, "se_sq": (v / fac) if ok else nan, "all_zero": allz,
+                    "gammas": g, "hg_sample": [x / n for x in g[:ml]]})
+    return out
+
+
+def no_model(ctx):
+    return getattr(ctx, "no_model", False)
+
+
+def ci_formula(ctx, mean, q, stat):
+    if no_model(ctx):
+        with np.errstate(all="ignore"):
+            m, qq, s = np.float64(mean), np.float64(q), np.float64(stat)
+            return float(m * (1 + qq / s)), float(m * (1 - qq / s))
+    fm = ctx.model("c19_ci", enc_list([enc_num(mean), enc_num(q), enc_num(stat)]))
+    return core.dec_num(fm[0]), core.dec_num(fm[1])
+
+
 def model_call(ctx, rows, hs, method, cl, dist):
+    if no_model(ctx):
+        return py_rows(rows, hs)
     t = ctx.model("c19_dm", enc_list([enc_list([enc_nums(r) for r in rows]), enc_nums(hs), enc_str(method), enc_num(cl), enc_str(dist)]))
     if core.is_err(t):
         return t
@@ -167,13 +210,13 @@ def vhat_condition(row, h):
 # ------------------------------------------------------------------------------------------
 # one call: correspondence + property predicates
 # ------------------------------------------------------------------------------------------
-def check_call(ctx, rows, hs, method, cl, dist, transpose=False, h_float=False, kinds=None, sample=False):
+def check_call(ctx, rows, hs, method, cl, dist, transpose=False, h_float=False, kinds=None, sample=False, dtype=None):
     rng = ctx.rng
-    da = build_da(rng, rows, hs, transpose, h_float)
+    da = build_da(rng, rows, hs, transpose, h_float, dtype)
     impl = core.call_impl(dm(), da, "lead", "h", method=method, confidence_level=cl, statistic_distribution=dist)
     m = model_call(ctx, rows, hs, method, Fraction(cl), dist)
     desc = {"fn": "diebold_mariano", "series": [[None if math.isnan(x) else x for x in r] for r in rows], "h": list(hs), "method": method,
-            "confidence_level": cl, "statistic_distribution": dist}
+            "confidence_level": cl, "statistic_distribution": dist, "dtype": dtype or "float64"}
     if core.is_err(m) or impl[0] == "err":
         ok = impl[0] == "err" and core.is_err(m) and impl[1] == m
         ctx.case(desc, False)
@@ -206,8 +249,13 @@ def check_call(ctx, rows, hs, method, cl, dist, transpose=False, h_float=False, 
         boundary = False
         if method == "HLN":
             exp_stat = signed_sqrt(row["stat_sq"])
-            if vn2 == 0 and not row["all_zero"] and len(set(x for x in rows[i] if not math.isnan(x))) > 1:
-                # V_hat is exactly zero: binary64 cancellation decides between NaN and a huge value
+            illcond = vn2 != 0 and 1e-13 * n * float(vabs / abs(vn2)) > 1e-4
+            if illcond:
+                # V_hat is zero up to the rounding of the inputs (e.g. a rescaled series whose exact V_hat is 0): nothing to compare
+                boundary = True
+                ctx.count("boundary:vhat_ill_conditioned")
+            elif vn2 == 0 and not row["all_zero"] and not exact_constant([x for x in rows[i] if not math.isnan(x)]):
+                # V_hat is exactly zero (e.g. a constant series): binary64 rounding of the mean decides between NaN and a huge value
                 boundary = True
                 ctx.count("boundary:vhat_exactly_zero")
                 if not (math.isnan(stat) or abs(stat) > 1e5 or stat == 0.0):
@@ -240,8 +288,7 @@ def check_call(ctx, rows, hs, method, cl, dist, transpose=False, h_float=False, 
             ctx.violation("confidence_gt_0 is not the reference cdf at dm_test_stat", sd, ec, im["confidence_gt_0"])
         # --- confidence interval ---
         q = host_quantile(dist, cl, n)
-        fm = ctx.model("c19_ci", enc_list([enc_num(im["mean"]), enc_num(q), enc_num(stat)]))
-        up, lo = core.dec_num(fm[0]), core.dec_num(fm[1])
+        up, lo = ci_formula(ctx, im["mean"], q, stat)
         faithful = core.close(im["ci_upper"], up, 1e-9) and core.close(im["ci_lower"], lo, 1e-9)   # = mean * (1 +- q / stat), IEEE-style
         if math.isfinite(stat):
             brackets = im["ci_lower"] <= im["mean"] <= im["ci_upper"]       # False when an end point is NaN
@@ -270,18 +317,21 @@ def check_call(ctx, rows, hs, method, cl, dist, transpose=False, h_float=False, 
     return ds
 
 
-def relations(ctx, rows, hs, method, cl, dist):
+SCALES = [2.0, 0.5, 4.0, 3.0, 0.1, 1e-3, 1e-5, 1e-6, 1e3, 1e6]
+
+
+def relations(ctx, rows, hs, method, cl, dist, dtype=None):
     """sign symmetry, scale invariance and series independence on the implementation"""
     rng = ctx.rng
     f = dm()
     kw = dict(method=method, confidence_level=cl, statistic_distribution=dist)
-    base = core.call_impl(f, build_da(rng, rows, hs), "lead", "h", **kw)
+    base = core.call_impl(f, build_da(rng, rows, hs, dtype=dtype), "lead", "h", **kw)
     if base[0] != "ok":
         return
     b = base[1]
     desc = {"series": [[None if math.isnan(x) else x for x in r] for r in rows], "h": list(hs), "method": method, "confidence_level": cl,
-            "statistic_distribution": dist}
-    neg = core.call_impl(f, build_da(rng, [[-x for x in r] for r in rows], hs), "lead", "h", **kw)
+            "statistic_distribution": dist, "dtype": dtype or "float64"}
+    neg = core.call_impl(f, build_da(rng, [[-x for x in r] for r in rows], hs, dtype=dtype), "lead", "h", **kw)
     if neg[0] != "ok":
         ctx.violation("negated series raises", desc, "ok", neg[1])
         return
@@ -296,7 +346,7 @@ def relations(ctx, rows, hs, method, cl, dist):
                           {"stat": -s, "confidence": 1 - c}, {"stat": s2, "confidence": c2})
     ctx.count("relation:negation")
     if method == "HLN":
-        c = rng.choice([2.0, 0.5, 4.0, 3.0])
+        c = rng.choice(SCALES)
         sc = core.call_impl(f, build_da(rng, [[c * x for x in r] for r in rows], hs), "lead", "h", **kw)
         if sc[0] != "ok":
             ctx.violation("rescaled series raises", desc, "ok", sc[1])
@@ -305,7 +355,7 @@ def relations(ctx, rows, hs, method, cl, dist):
             for i in range(len(rows)):
                 s, s2 = float(b["dm_test_stat"].values[i]), float(sc[1]["dm_test_stat"].values[i])
                 vn2, vabs = vhat_condition(m[i], int(hs[i]))
-                if vn2 == 0:
+                if vn2 == 0 or 1e-13 * m[i]["len"] * float(vabs / abs(vn2)) > 1e-5:
                     # V_hat exactly zero: NaN for a constant series (checked in check_call); otherwise binary64 cancellation
                     # (which a non-power-of-two rescaling changes) decides between NaN and a huge value
                     ctx.count("boundary:vhat_exactly_zero(scale)")
@@ -316,7 +366,7 @@ def relations(ctx, rows, hs, method, cl, dist):
     # each series is treated independently of the others in the call
     if len(rows) > 1:
         i = rng.randrange(len(rows))
-        one = core.call_impl(f, build_da(rng, [rows[i]], [hs[i]]), "lead", "h", **kw)
+        one = core.call_impl(f, build_da(rng, [rows[i]], [hs[i]], dtype=dtype), "lead", "h", **kw)
         if one[0] == "ok":
             for k in ("mean", "dm_test_stat", "confidence_gt_0", "ci_upper", "ci_lower", "timeseries_len"):
                 if not close_f(float(one[1][k].values[0]), float(b[k].values[i]), rel=1e-12):
@@ -330,11 +380,14 @@ def acovf_cases(ctx, n):
     from scores.stats.statistical_tests.acovf import acovf
     rng = ctx.rng
     for i in range(n):
-        ln = rng.choice([2, 3, 4, 5, 6, 7, 8, 9, 10, 12, 16, 17, 31, 40])
+        ln = rng.choice([1, 2, 3, 4, 5, 6, 7, 8, 9, 10, 12, 13, 16, 17, 20, 21, 22, 31, 36, 37, 40])
         kind, v = gen_series(rng, ln)
-        m = model_call(ctx, [v], [1], "HLN", Fraction(1, 2), "normal")
         ac = acovf(np.array(v, dtype=float))
-        exp = [g / ln for g in m[0]["gammas"]]
+        if ln == 1:
+            exp = [Fraction(0)]          # a single value: lag-0 autocovariance 0 (the public function rejects h >= length)
+        else:
+            m = model_call(ctx, [v], [1], "HLN", Fraction(1, 2), "normal")
+            exp = [g / ln for g in m[0]["gammas"]]
         scale = max(1.0, max(abs(float(e)) for e in exp))
         ctx.case(("acovf", tuple(v)))
         if len(ac) != ln or any(abs(float(a) - float(e)) > 1e-9 * scale for a, e in zip(ac, exp)):
@@ -404,6 +457,58 @@ def tiny_exhaustive(ctx, maxlen, methods):
     return True
 
 
+def units_cases(ctx, n):
+    """the same series expressed in different units within one call (x1, x1e-3, x1e-5, x1e3, x1e6): each row against the exact model
+    (the model receives the binary64 values as exact rationals) and the statistics of all rows against each other"""
+    rng = ctx.rng
+    for _ in range(n):
+        if not ctx.time_left():
+            return
+        ln = rng.randint(3, 10)
+        kind, v = gen_series(rng, ln, rng.choice(["random", "random", "two_valued", "small", "alternating"]))
+        h = rng.randint(1, ln - 1)
+        scales = [1.0] + rng.sample([1e-3, 1e-5, 1e-6, 1e3, 1e6, 0.1, 7.0], 3)
+        rows = [[c * x for x in v] for c in scales]
+        method = rng.choice(["HLN", "HLN", "HG"])
+        ds = check_call(ctx, rows, [h] * len(rows), method, rng.choice(LEVELS), rng.choice(["normal", "t"]), kinds=["units:" + kind] * len(rows))
+        ctx.count("units_call")
+        if ds is None or method != "HLN":
+            continue
+        m = model_call(ctx, [v], [h], method, Fraction(1, 2), "normal")[0]
+        vn2, vabs = vhat_condition(m, h)
+        if vn2 == 0 or 1e-13 * ln * float(vabs / abs(vn2)) > 1e-5:
+            continue
+        st = [float(x) for x in ds["dm_test_stat"].values]
+        for c, x in zip(scales[1:], st[1:]):
+            if not close_f(x, st[0], rel=1e-8 + 1e-12 * ln * float(vabs / abs(vn2))):
+                ctx.violation("positive rescaling changes the HLN statistic", {"fn": "diebold_mariano", "series": rows, "h": [h] * len(rows), "method": "HLN",
+                                                                                "scale": c}, st[0], x)
+
+
+def int_dtype_cases(ctx, n):
+    """integer-dtype time series (no NaN): the statistics are real numbers whatever the dtype of the input"""
+    rng = ctx.rng
+    for i in range(n):
+        if not ctx.time_left():
+            return
+        k = rng.choice([1, 2, 3])
+        ln = rng.randint(2, 10)
+        rows = [[float(rng.randint(-4, 6)) for _ in range(ln)] for _ in range(k)]
+        hs = [rng.randint(1, ln - 1) for _ in range(k)]
+        method, dist, cl = rng.choice(["HLN", "HLN", "HG"]), rng.choice(["normal", "t"]), rng.choice(LEVELS)
+        dt = rng.choice(["int64", "int32"])
+        check_call(ctx, rows, hs, method, cl, dist, transpose=rng.random() < 0.3, kinds=["int_dtype"] * k, dtype=dt)
+        if i % 3 == 0:
+            relations(ctx, rows, hs, method, cl, dist, dtype=dt)
+        ctx.count("dtype:" + dt)
+
+
+def run_without_model(ctx):
+    """the extracted model is unavailable: the same predicates with the documented estimators evaluated in exact Python rationals"""
+    ctx.no_model = True
+    run(ctx)
+
+
 def replay(ctx, rec):
     import scores.stats.statistical_tests  # noqa: F401
     v = rec.get("violation") or {}
@@ -412,9 +517,10 @@ def replay(ctx, rec):
         return run(ctx)
     rows = [[float("nan") if x is None else float(x) for x in r] for r in c["series"]]
     hs = [float("nan") if isinstance(h, str) else h for h in c["h"]]
+    dt = c.get("dtype") if "int" in str(c.get("dtype")) else None
     check_call(ctx, rows, hs, c["method"], float(c["confidence_level"]), c["statistic_distribution"],
-               h_float=any(isinstance(h, float) for h in hs))
-    relations(ctx, rows, hs, c["method"], float(c["confidence_level"]), c["statistic_distribution"])
+               h_float=any(isinstance(h, float) for h in hs), dtype=dt)
+    relations(ctx, rows, hs, c["method"], float(c["confidence_level"]), c["statistic_distribution"], dtype=dt)
 
 
 def run(ctx):
@@ -446,5 +552,8 @@ def run(ctx):
         check_call(ctx, rows, hs, method, cl, dist, transpose=rng.random() < 0.3, h_float=rng.random() < 0.2, kinds=kinds, sample=(i < 2))
         if i % 3 == 0:
             relations(ctx, rows, hs, method, cl, dist)
+    units_cases(ctx, ctx.n(40, 800))
+    int_dtype_cases(ctx, ctx.n(40, 800))
     acovf_cases(ctx, ctx.n(100, 2000))
-    malformed(ctx, ctx.n(60, 600))
+    if not no_model(ctx):
+        malformed(ctx, ctx.n(60, 600))
